@@ -239,6 +239,31 @@ def run(chk):
             chk.fail("guess-not-covariant", f"guess_tempo_parameters: shifting system and interval by {tau} changes the guess "
                      f"(dt {g0.dt:.6g} -> {g1.dt:.6g}, dkmax {g0.dkmax} -> {g1.dkmax}, epsrel {g0.epsrel:.3g} -> {g1.epsrel:.3g})", info)
 
+    # ---- (d2) the bath's share of the guess alone (no system, or one that is slow against the bath): the correlation function depends on
+    # time differences only, so the guessed dt / dkmax / epsrel do not depend on where the interval sits ------------------------------------
+    for it in range(6 if thorough else 3):
+        tau = [1.3, -0.7, 25.0, 0.4, -3.0, 7.5][it % 6]
+        span = rng.choice([2.0, 3.0])
+        wc_, al_ = rng.choice([3.0, 5.0]), rng.choice([0.05, 0.2])
+        with_sys = it % 2 == 1
+        bath_b = oqupy.Bath(0.5 * SZ, oqupy.PowerLawSD(alpha=al_, zeta=1, cutoff=wc_, cutoff_type="exponential", temperature=0.0))
+        slow = oqupy.System(0.05 * SX) if with_sys else None
+        info = {"kind": "guessed-parameters-bath", "tau": tau, "span": span, "cutoff": wc_, "alpha": al_, "system": "slow" if with_sys else None}
+        try:
+            with warnings.catch_warnings():
+                warnings.simplefilter("ignore")
+                g0 = quiet(oqupy.guess_tempo_parameters, bath_b, 0.0, span, slow, 0.02)
+                g1 = quiet(oqupy.guess_tempo_parameters, bath_b, tau, tau + span, slow, 0.02)
+        except Exception as ex:
+            chk.fail("shift-raises", f"guess_tempo_parameters raises {ex!r}", info)
+            continue
+        chk.search_cases += 1
+        chk.count("search_guessed_parameters_bath")
+        chk.case(info, ("guess-bath", tau, span, wc_, al_, with_sys))
+        if abs(g0.dt - g1.dt) > 2e-3 * g0.dt or abs(g0.dkmax - g1.dkmax) > 1 or abs(g0.epsrel - g1.epsrel) > 2e-3 * g0.epsrel:
+            chk.fail("guess-not-covariant", f"guess_tempo_parameters(bath with cut-off {wc_}, {'a slow system' if with_sys else 'no system'}): moving the interval "
+                     f"[0, {span}] by {tau} changes the guess (dt {g0.dt:.6g} -> {g1.dt:.6g}, dkmax {g0.dkmax} -> {g1.dkmax}, epsrel {g0.epsrel:.3g} -> {g1.epsrel:.3g})", info)
+
     return chk.finish(
         level="proof",
         trusted=["models: Model/TimeGrid.v, Model/Control.v, Model/Corr.v on primitive floats; rationals for the exact statement",
